@@ -144,8 +144,9 @@ def rand_pdu(rng, ptype=None):
         return _bind.BindNak(header=rand_header(rng, ptype), sec_trailer=None, reject_reason=rng.choice([0, 4, 65535]), versions=[(5, rng.randrange(256)) for _ in range(rng.randrange(0, 4))])
     stub = bytes(rng.randrange(256) for _ in range(rng.choice([0, 1, 7, 8, 16, 33, 100])))
     if ptype == 0:
-        obj = rand_uuid(rng) if rng.random() < 0.5 else None
-        return _request.Request(header=rand_header(rng, 0, flags=0x83 if obj else 3, auth_len=al), sec_trailer=tr, alloc_hint=len(stub), context_id=rng.choice([0, 1]), opnum=rng.choice([0, 3, 65535]), obj=obj, stub_data=stub)
+        # (a present object UUID may have any value: the nil UUID is a value, not an absence)
+        obj = rng.choice([rand_uuid(rng), rand_uuid(rng), uuid.UUID(int=0), uuid.UUID(int=1), uuid.UUID(int=2**128 - 1)]) if rng.random() < 0.5 else None
+        return _request.Request(header=rand_header(rng, 0, flags=0x83 if obj is not None else 3, auth_len=al), sec_trailer=tr, alloc_hint=len(stub), context_id=rng.choice([0, 1]), opnum=rng.choice([0, 3, 65535]), obj=obj, stub_data=stub)
     if ptype == 2:
         return _request.Response(header=rand_header(rng, 2, auth_len=al), sec_trailer=tr, alloc_hint=len(stub), context_id=0, cancel_count=rng.choice([0, 255]), stub_data=stub)
     return _pdu.Fault(header=rand_header(rng, 3, auth_len=al), sec_trailer=tr, alloc_hint=rng.randrange(2**32), context_id=0, cancel_count=0, status=rng.choice([5, 0x1C010003, 2**32 - 1]),
